@@ -36,6 +36,17 @@ pub fn fmt_f(f: f64) -> String {
     format!("x{:016x}", f.to_bits())
 }
 
+/// Exponent k of the dyadic weight scale of the current case (`wscale k` line): every weight read
+/// from the case is multiplied by 2^k before it reaches the library, and every weight-valued
+/// observation is divided by 2^k again before it is printed.  Multiplying binary64 values by a power
+/// of two is exact (no over/underflow at the sizes used), so a correct implementation produces the
+/// observations of the unscaled case bit for bit; a change that compares weights with an absolute
+/// threshold (EPSILON, 1.0, ...) or narrows them to f32-like ranges does not.
+pub static WSCALE: std::sync::atomic::AtomicI32 = std::sync::atomic::AtomicI32::new(0);
+pub fn wfactor() -> f64 {
+    2f64.powi(WSCALE.load(std::sync::atomic::Ordering::SeqCst))
+}
+
 /// weight -> ints: NaN [0,0]; integer-valued [1,z]; anything else [2,bits]
 pub fn enc_w(w: f64) -> [i64; 2] {
     if w.is_nan() {
